@@ -699,6 +699,85 @@ pub mod r#async {
             Poll::Ready(Ok(()))
         }
     }
+
+    #[cfg(wtransport_verif)]
+    #[doc(hidden)]
+    #[allow(missing_docs)]
+    mod verif {
+        use super::*;
+
+        impl<'a, R: ?Sized> GetVarint<'a, R> {
+            pub fn verif_from_parts(
+                reader: &'a mut R,
+                buffer: [u8; VarInt::MAX_SIZE],
+                offset: usize,
+                varint_size: usize,
+            ) -> Self {
+                Self {
+                    reader,
+                    buffer,
+                    offset,
+                    varint_size,
+                }
+            }
+
+            pub fn verif_parts(&self) -> ([u8; VarInt::MAX_SIZE], usize, usize) {
+                (self.buffer, self.offset, self.varint_size)
+            }
+        }
+
+        impl<'a, R: ?Sized> GetBuffer<'a, R> {
+            pub fn verif_from_parts(
+                reader: &'a mut R,
+                buffer: &'a mut [u8],
+                offset: usize,
+            ) -> Self {
+                Self {
+                    reader,
+                    buffer,
+                    offset,
+                }
+            }
+
+            pub fn verif_parts(&self) -> (&[u8], usize) {
+                (self.buffer, self.offset)
+            }
+        }
+
+        impl<'a, W: ?Sized> PutVarint<'a, W> {
+            pub fn verif_from_parts(
+                writer: &'a mut W,
+                buffer: [u8; VarInt::MAX_SIZE],
+                offset: usize,
+                varint_size: usize,
+            ) -> Self {
+                Self {
+                    writer,
+                    buffer,
+                    offset,
+                    varint_size,
+                }
+            }
+
+            pub fn verif_parts(&self) -> ([u8; VarInt::MAX_SIZE], usize, usize) {
+                (self.buffer, self.offset, self.varint_size)
+            }
+        }
+
+        impl<'a, W: ?Sized> PutBuffer<'a, W> {
+            pub fn verif_from_parts(writer: &'a mut W, buffer: &'a [u8], offset: usize) -> Self {
+                Self {
+                    writer,
+                    buffer,
+                    offset,
+                }
+            }
+
+            pub fn verif_parts(&self) -> (&[u8], usize) {
+                (self.buffer, self.offset)
+            }
+        }
+    }
 }
 
 #[cfg(feature = "async")]
